@@ -26,7 +26,10 @@ SPAWNER = dict(
 
 COMMUNICATION = dict(
     out="Communication", file="executorlib/standalone/interactive/communication.py",
+    classes=["SocketInterface"],
     funcs=[
+        dict(py="SocketInterface.receive_dict", name="receive_dict",
+             opaque={"cloudpickle.loads(self._socket.recv())": "received"}),
         dict(py="interface_bootup", inout=["command_lst"],
              opaque={"sys.platform": "platform", "gethostname()": "hostname",
                      "interface.bind_to_random_port()": "port"},
